@@ -4,6 +4,7 @@ package c04
 
 import (
 	"fmt"
+	"strings"
 
 	"github.com/lugu/qiloop/bus"
 	"github.com/lugu/qiloop/bus/net"
@@ -138,6 +139,78 @@ func callers(nThreads int, fine bool) func() {
 		}
 		vrt.Observe("order=%v", w.Root.Order)
 	}
+}
+
+// failing: calls whose method answers with an error race successful calls
+// and a call to an action that does not exist: every caller gets its own
+// answer - the error text its own method produced - exactly once.
+func failing() {
+	w := fx.Start(bus.Yes{})
+	c1, c2 := w.MustConnect(), w.MustConnect()
+	pA, pB, pC := c1.Probe(1), c1.Probe(1), c2.Probe(1)
+	vrt.Explore()
+	type res struct {
+		v        int32
+		err      error
+		returned int
+	}
+	rs := make([]res, 5)
+	ws := []*vrt.Thread{
+		vrt.GoWorker("A", func() {
+			rs[0].v, rs[0].err = pA.Echo(-7)
+			rs[0].returned++
+			rs[1].v, rs[1].err = pA.Echo(6)
+			rs[1].returned++
+		}),
+		vrt.GoWorker("B", func() {
+			rs[2].v, rs[2].err = pB.Echo(8)
+			rs[2].returned++
+			_, rs[3].err = pB.Proxy().CallID(999, nil)
+			rs[3].returned++
+		}),
+		vrt.GoWorker("C", func() {
+			rs[4].v, rs[4].err = pC.Echo(-9)
+			rs[4].returned++
+		}),
+	}
+	vrt.Quiesce()
+	fx.Settle(ws...)
+	wantErr := func(i int, name, text string) {
+		if rs[i].returned != 1 {
+			return
+		}
+		if rs[i].err == nil {
+			vrt.Failf("error-lost/"+name, "%s succeeded (returned %d) although its method answered with an error", name, rs[i].v)
+		} else if rs[i].err.Error() != text && !strings.HasSuffix(rs[i].err.Error(), text) {
+			vrt.Failf("wrong-error/"+name, "%s failed with %q, its own method answered %q", name, rs[i].err.Error(), text)
+		}
+	}
+	wantOK := func(i int, name string, arg int32) {
+		if rs[i].returned != 1 {
+			return
+		}
+		if rs[i].err != nil {
+			vrt.Failf("call-failed/"+name, "%s failed on a healthy system: %v", name, rs[i].err)
+		} else if rs[i].v != probe.EchoResult(arg) {
+			vrt.Failf("wrong-result/"+name, "%s returned %d, its own arguments give %d", name, rs[i].v, probe.EchoResult(arg))
+		}
+	}
+	wantErr(0, "echo(-7)", probe.EchoError(-7))
+	wantOK(1, "echo(6)", 6)
+	wantOK(2, "echo(8)", 8)
+	wantErr(3, "unknown-action", bus.ErrActionNotFound.Error())
+	wantErr(4, "echo(-9)", probe.EchoError(-9))
+	for _, k := range []string{"echo(-7)", "echo(6)", "echo(8)", "echo(-9)"} {
+		if n := w.Root.Calls[k]; n != 1 {
+			vrt.Failf("execution-count/echo", "%s ran %d times", k, n)
+		}
+	}
+	checkWire("conn1", c1, nil)
+	checkWire("conn2", c2, nil)
+	if len(w.Root.Order) >= 1 && w.Root.Order[0] != "echo(-7)" {
+		vrt.Flag("server-order-differs-from-default")
+	}
+	vrt.Observe("order=%v", w.Root.Order)
 }
 
 // cancel: a call with a cancel channel racing the closing of that channel.
@@ -301,6 +374,8 @@ func init() {
 		Doc: "2 goroutines, 2 proxies on one connection: echo(5);slow(11) || echo(7)", MustFlag: []string{"replies-crossed"}})
 	reg.Register(&reg.Scenario{Property: "C04", Name: "three-callers-post", Body: callers(3, false), Quick: 2, Thorough: 3,
 		Doc: "3 goroutines on 2 connections: echo(5);slow(11) || echo(7) || echo(9);post inc()", MustFlag: []string{"server-order-differs-from-default"}})
+	reg.Register(&reg.Scenario{Property: "C04", Name: "failing-calls", Body: failing, Quick: 2, Thorough: 3,
+		Doc: "A: echo(-7) [method error], echo(6) || B (same connection): echo(8), unknown action 999 || C (other connection): echo(-9): each caller gets its own result or its own error text", MustFlag: []string{"server-order-differs-from-default"}})
 	reg.Register(&reg.Scenario{Property: "C04", Name: "cancel-slow", Body: cancel(103, "slow(4)", fx.Int32(4), probe.EchoResult(4)), Quick: 2, Thorough: 3,
 		Doc: "Call(slow(4)) with a cancel channel || close(cancel)", MustFlag: []string{"cancelled"}})
 	reg.Register(&reg.Scenario{Property: "C04", Name: "cancel-noarg", Body: cancel(102, "noarg", nil, 42), Quick: 2, Thorough: 3,
